@@ -141,7 +141,7 @@ def rule_X2(ctx: Ctx) -> None:
                   "reader: layer 0 = pixel_grid[2::2, 1::2], layer 1 = pixel_grid[1::2, 2::2] (the writer's edge pixels)",
                   "reading the image back yields a different connection structure")
     gs = X.assignments_to(r.node, "grid_shape")
-    ok = len(gs) == 1 and isinstance(gs[0], ast.Tuple) and [X.U(e).replace(" ", "") for e in gs[0].elts] == [f"{r.params()[1]}.shape[0]//2", f"{r.params()[1]}.shape[1]//2"]
+    ok = len(gs) == 1 and isinstance(gs[0], ast.Tuple) and [X.U(e) for e in gs[0].elts] == [X.CT(f"{r.params()[1]}.shape[0]//2"), X.CT(f"{r.params()[1]}.shape[1]//2")]
     ctx.judge(r, ok, {"grid_shape": X.U(gs[0]) if gs else None}, "grid shape = image shape // 2 per axis")
     # ---- coordinate recovery
     p = ctx.index.func(f"{LM}.LatticeMaze._from_pixel_grid_with_positions")
@@ -157,7 +157,7 @@ def rule_X2(ctx: Ctx) -> None:
     ctx.judge(p, ok, slot, "a marked pixel is a cell iff both indices are odd; its cell is (p0 // 2, p1 // 2)",
               "start/end/solution cells are recovered transposed or shifted")
     wm = [s for s in ast.walk(p.node) if isinstance(s, (ast.Assign, ast.AnnAssign)) and "PixelColors.WALL" in X.U(s)]
-    ok = len(wm) == 1 and X.U(wm[0].value).replace(" ", "") == f"~np.all({p.params()[1]}==PixelColors.WALL,axis=-1)"
+    ok = len(wm) == 1 and X.same_expr(wm[0].value, f"~np.all({p.params()[1]}==PixelColors.WALL,axis=-1)", f"np.any({p.params()[1]}!=PixelColors.WALL,axis=-1)")
     ctx.judge(p, ok, {"open_mask": X.U(wm[0].value) if wm else None}, "every non-wall colour counts as open when recovering connections")
     # ---- endpoint / path writes in as_pixels
     f = ctx.index.func(f"{LM}.LatticeMaze.as_pixels")
@@ -296,8 +296,8 @@ def rule_X4(ctx: Ctx) -> None:
                   "images are read back as the wrong maze kind")
     # from_pixels: markers and class gate
     fp = ctx.index.func(f"{LM}.LatticeMaze.from_pixels")
-    mp = [c for c in ast.walk(fp.node) if isinstance(c, ast.Call) and dotted_of(c.func) == "dict" and {k.arg for k in c.keywords} == {"start", "end", "solution"}]
-    ok = len(mp) == 1 and {k.arg: X.U(k.value) for k in mp[0].keywords} == {"start": "PixelColors.START", "end": "PixelColors.END", "solution": "PixelColors.PATH"}
+    mp = [c for c in ast.walk(fp.node) if set(X.dict_items(c) or ()) == {"start", "end", "solution"}]
+    ok = len(mp) == 1 and {k: X.U(v) for k, v in X.dict_items(mp[0]).items()} == {"start": "PixelColors.START", "end": "PixelColors.END", "solution": "PixelColors.PATH"}
     ctx.judge(fp, ok, {"marked_positions": X.U(mp[0]) if mp else None}, "start/end/solution cells are looked up by START/END/PATH colour")
     gate = [n for n in fp.node.body if isinstance(n, ast.If) and "__mro__" in X.U(n.test)]
     ok = len(gate) == 1 and X.U(gate[0].test) in ("not cls in cls_detected.__mro__", "cls not in cls_detected.__mro__") and any(isinstance(s, ast.Raise) for s in gate[0].body)
